@@ -1,4 +1,5 @@
 """C01 - execution of a program matches its source-level meaning."""
+import json
 import os
 import re
 import shutil
@@ -304,6 +305,27 @@ def map_program(rng):
     return "\n".join(lines)
 
 
+def render_program(rng):
+    """a scalar rendered three ways - interpolated into a template string, converted with string(), concatenated after an empty
+    string template - must give one text (floats of very small and very large magnitude, negative zero, big ints, bools, nil,
+    strings): a rule of the language that needs no model.  The program returns [interpolated, converted, ...]"""
+    def flt():
+        return rng.choice(["0.00001", "(1.0 / 3000000.0)", "(2.0 ** 70.0)", "(2.0 ** 64.0)", "1.5", "(0.1 + 0.2)", "(-0.0)", "123456789.125",
+                           "(1.0 / 8.0)", "(10.0 ** 21.0)", "(10.0 ** 20.0)", "(7.0 / 1000000.0)", "(-2.5e-7 * 1.0)" if False else "(-(1.0 / 4000000.0))",
+                           "%d.%d" % (rng.below(1000), rng.below(1000)), "(%d.0 ** %d.0)" % (2 + rng.below(9), rng.below(40)),
+                           "(1.0 / (%d.0 ** %d.0))" % (2 + rng.below(9), rng.below(20))])
+    vals = [flt() for _ in range(1 + rng.below(3))] + [rng.choice(["9223372036854775807", "-1", "true", "nil", '"a b"', "0", "(7 / 2)", "(7.0 / 2)"])]
+    lines = []
+    outs = []
+    for i, v in enumerate(vals):
+        lines.append("x%d := %s" % (i, v))
+        outs += ["'{x%d}'" % i, "string(x%d)" % i]
+        if rng.chance(1, 2):
+            outs += ["'{%s}'" % v.replace("'", ""), "string(%s)" % v]
+    lines.append("[" + ", ".join(outs) + "]")
+    return "\n".join(lines)
+
+
 def list_program(rng):
     """lists as values with identity: literals, + (always a NEW list), append / index assignment (in place, seen through
     every alias), aliases, slices (copies); every variable is printed at the end, so storage shared by mistake between
@@ -383,6 +405,8 @@ def run(res):
     for i in range(max(200, nprog // 8)):
         srcs.append(map_program(rng))
     stats["map history programs"] = max(200, nprog // 8)
+    renders = [render_program(rng) for i in range(max(150, nprog // 10))]
+    stats["rendering programs"] = len(renders)
     corpus = []
     for f in ("harvest.hex", "semgen.hex", "edge.hex"):
         for line in open(os.path.join(C.VERIF, "corpus", "core", f)):
@@ -392,7 +416,12 @@ def run(res):
     wit = [open(os.path.join(cdir, f)).read() for f in sorted(os.listdir(cdir))] if os.path.isdir(cdir) else []
     allsrc = wit + corpus + srcs
 
-    ops, PREFIX, LOWEST = load_binops()
+    ops_now, PREFIX_now, LOWEST_now = load_binops()
+    # the oracle's expectation does not come from the source under test: the reference table (corpus/core/precedence.ref.json)
+    # says which tree a text has; the table regenerated from the current source is what the theorems are instantiated with
+    ref = json.load(open(os.path.join(C.VERIF, "corpus", "core", "precedence.ref.json")))
+    ops, PREFIX, LOWEST = [tuple(o) for o in ref["ops"]], ref["PREFIX"], ref["LOWEST"]
+    stats["precedence table equals the reference"] = int([tuple(o) for o in ops_now] == ops and PREFIX_now == PREFIX and LOWEST_now == LOWEST)
     trees = [rand_tree(rng, ops, 2 + rng.below(4)) for _ in range(npratt)]
     pratt_src = [flat(t, LOWEST, PREFIX) for t in trees]
 
@@ -454,6 +483,29 @@ def run(res):
         outcomes[k] = outcomes.get(k, 0) + 1
         if st["code_go"][i].startswith("code "):
             distinct.add(hash(st["code_go"][i]))
+
+    # rendering: interpolation and string() give one text (judged on the implementation's own result, pair by pair)
+    render_checked = 0
+    c02obs, _err = C.go_build("c02obs")          # an evaluator with the default builtins (string())
+    rlines = []
+    if c02obs:
+        import subprocess
+        pr = subprocess.run([c02obs, "eval"], input=("\n".join(r.encode().hex() for r in renders) + "\n").encode(), stdout=subprocess.PIPE)
+        rlines = pr.stdout.decode("utf-8", "replace").splitlines()
+    for src_r, line in zip(renders, rlines):
+        if not line.startswith("OK (l "):
+            continue
+        items = re.findall(r"\(s ([0-9a-f]*)\)", line.split(" TRACE")[0])
+        if len(items) % 2:
+            continue
+        render_checked += 1
+        for a, b in zip(items[0::2], items[1::2]):
+            if a != b:
+                oracle.append({"kind": "oracle-violation", "stage": "rendering", "source": src_r, "impl": line[:400],
+                               "interpolated": bytes.fromhex(a).decode("utf-8", "replace"), "converted": bytes.fromhex(b).decode("utf-8", "replace"),
+                               "why": "a value interpolated into a template string is rendered differently from string() of the same value"})
+                break
+    cov["rendering_programs_checked"] = render_checked
 
     # C01_front on the implementation: parse (print e) = e
     pratt_bad = 0
